@@ -7,11 +7,12 @@ level("C01",
             "move_refines - for WF p, non-pass m and the 64-piece StackLimit: model rejects => rule book rejects; model accepts with q => "
             "rule book accepts with successor exactly abs q (every stack's contents and order, top kind, reserves, ply) and WF q "
             "(bitboard consistency, Height/Stacks normalisation, incremental hash = from-scratch hash); rejections need no StackLimit; "
-            "place_refines needs no StackLimit at all; new_wf (New of every accepted config is WF); reachable_wf (induction along move sequences, "
-            "model and rule book stay in step). "
+            "place_refines needs no StackLimit at all; new_wf (New of every accepted config is WF); fromSquares_wf (whenever FromSquares returns a "
+            "position for a board with <= 64 pieces per square and ply >= 0, it is WF; bad bytes make it return an error); reachable_wf (induction along "
+            "move sequences, model and rule book stay in step). "
             "SAMPLED, not proved: that the Lean model Pos.apply behaves like the Go function (about 2.7e5 (position, move) pairs per quick run incl. "
             "malformed moves, compared on ok/err and the full successor dump; the spec oracle smove is compared beside it). "
-            "NOT covered: fromSquares_wf (well-formedness of FromSquares output is only exercised through the correspondence), "
+            "NOT covered by a theorem: that the squares of FromSquares' result are the input squares (checked by the rebuild op only), "
             "the automatic validity of StackLimit for default piece counts on sizes <= 6, the engine's pass move (outside the claim)."),
       note=("Hypothesis AnalyzeTotal (forall p, p.analyze != none: flood fuel suffices) is taken as an explicit hypothesis of move_never_hangs/"
             "move_refines/reachable_wf; it is proved unconditionally as Roads.analyze_ne_none in the C02 work package (Proofs/Groups.lean) and is to be "
@@ -33,7 +34,7 @@ level("C08",
             "move-order transpositions; about 9e4 ops per quick run). "
             "NOT A THEOREM: the clause 'among the millions of distinct positions met no two share a hash' - by counting it cannot hold of all positions; "
             "the harness census over explored positions is sampled support only. "
-            "NOT covered by a theorem: positions produced by FromSquares, TPS import and symmetry transforms are covered only if they satisfy WF "
-            "(fromSquares_wf is not proved; the rebuild op compares FromSquares(At()) with the original on every sampled position)."),
+            "Positions produced by FromSquares satisfy WF (C01.fromSquares_wf), so equal_iff/hash_congr apply to them; TPS import and symmetry transforms "
+            "are covered only insofar as they end in FromSquares (their own parsing/transform code is the subject of C10/C14)."),
       note=("equal_iff/hash_congr/transposition assume Tak.WF (the invariant C01.move_refines proves is preserved from New); transposition additionally takes "
             "AnalyzeTotal (see C01) and the C01 side conditions (no pass, StackLimit) per step."))
